@@ -475,6 +475,16 @@ def run_for(ctx, pid):
         gc.coq_spec_check(ctx, res, what="wildcards")
     if pid == "C05":
         gc.coq_spec_check(ctx, res, what="verdict")
+    if pid == "C10":
+        # the hypothesis of the structure theorem (Proofs/BuilderShape.wbuild_shape), measured: how many generated
+        # models lie in its domain; inside it the model's graph is proved to mirror the rewrites, and the
+        # implementation's graph is compared with the model's
+        try:
+            dom = ctx.model(gc.FAM, ["(503 %s)" % sexp.enc(r["m"]) for r in res if r is not None])
+            for d in dom:
+                ctx.count("theorem_shape_applicable" if d and d[0] == 1 else "theorem_shape_not_applicable")
+        except core.ModelUnavailable:
+            pass
     evaluate(ctx, pid, res)
     if pid == "C06":
         history_phase(ctx, res)
